@@ -1445,7 +1445,8 @@ EXPECTED_HELPERS = {
 }
 
 
-def translate(repo=None):
+def extract(repo=None):
+    """the tables as Python data (used by checks/c20.py to enumerate cases) + the Lean text"""
     repo = repo or vlib.REPO
     defines = defines_from_flags()
     util = os.path.join(repo, "src", "cli", "util.hpp")
@@ -1535,7 +1536,17 @@ def translate(repo=None):
     o.append("def libDefaults : List String := [%s]" % ", ".join(lstr(d) for d in dfl))
     o.append("")
     o.append("end TapkeeVerif.Gen.Cli")
-    return "\n".join(o) + "\n"
+    return {
+        "lean": "\n".join(o) + "\n",
+        "options": [{"names": n, "canonical": n[-1], "ty": ty, "default": d, "hasValue": h} for n, ty, d, h, _ in ex.options],
+        "wiring": ex.wiring, "steps": ex.steps, "main_catch": main_catch,
+        "maps": {name: [(k, v.split("::")[-1]) for k, v in entries] for name, (_, entries) in umaps.items()},
+        "consts": consts, "traits": traits, "keywords": kws, "defaults": dfl, "defines": sorted(defines),
+    }
+
+
+def translate(repo=None):
+    return extract(repo)["lean"]
 
 
 def main():
